@@ -99,6 +99,26 @@ func field(hdr []byte, key string) []byte {
 	return out
 }
 
+// tabOnlyLongLine: every over-long line of the field contains a TAB but no SP after its leading blank
+func tabOnlyLongLine(f []byte) bool {
+	for _, l := range bytes.Split(bytes.TrimSuffix(f, []byte("\r\n")), []byte("\r\n")) {
+		if len(l) > 78 {
+			t := bytes.TrimLeft(l, " ")
+			if bytes.IndexByte(t, ' ') >= 0 && bytes.IndexByte(t, ' ') < len(t)-1 {
+				// contains an SP inside: could have been folded there; only exempt "Key: " on the first line
+				i := bytes.Index(t, []byte(": "))
+				if i < 0 || bytes.IndexByte(t[i+2:], ' ') >= 0 {
+					return false
+				}
+			}
+			if bytes.IndexByte(t, '\t') < 0 {
+				return false
+			}
+		}
+	}
+	return true
+}
+
 func unfold(f []byte) []byte {
 	f = bytes.TrimSuffix(f, []byte("\r\n"))
 	f = bytes.ReplaceAll(f, []byte("\r\n "), []byte(" "))
@@ -213,6 +233,10 @@ func runCase(r *hx.Run, c hx.Case) {
 		full := strings.Join(svals, ", ")
 		r.Add(c, hx.Hex(f), len(full) > 60)
 		if cl, d := checkLines(hdr, 78, true); cl != "" {
+			if cl == "line-too-long" && bytes.Contains(f, []byte("\t")) && tabOnlyLongLine(f) {
+				// the fold loop splits at SP only: words separated by TAB are one word for it
+				cl = "line-too-long-tab-separated"
+			}
 			r.Fail(c.ID, "hdr-"+cl, d)
 		}
 		if len(vals) > 0 {
@@ -423,6 +447,14 @@ func Run(r *hx.Run, replay []hx.Case) {
 			vals[j] = []byte(v)
 		}
 		runCase(r, hx.Case{ID: r.NewID(), Kind: "hdr", Args: []string{hx.Hex([]byte(key)), hx.HexList(vals)}})
+	}
+	// words separated by TAB instead of SP
+	for i := 0; i < 12; i++ {
+		v := strings.Repeat("a", 30+r.Rng.Intn(40)) + "\t" + strings.Repeat("b", 30+r.Rng.Intn(40))
+		if i%3 == 0 {
+			v = "short\t" + v + " tail"
+		}
+		runCase(r, hx.Case{ID: r.NewID(), Kind: "hdr", Args: []string{hx.Hex([]byte("X-Verif-Tab")), hx.HexList([][]byte{[]byte(v)})}})
 	}
 	// file names through the part headers
 	nf := 60
